@@ -150,7 +150,7 @@ def catalogue():
             continue
         items = []
         for j in pl['jobs']:
-            tag = j['scen'] + ('(dir)' if j.get('only_prefix') else '') + ('(stress)' if j.get('no_hook') else '') + (f":{j['lane']}" if j.get('lane', 'plain') != 'plain' else '')
+            tag = j['scen'] + ('(dir)' if j.get('only_prefix') else '') + ('(stress)' if j.get('no_hook') else '') + ('(reuse)' if j.get('reuse') else '') + (f":{j['lane']}" if j.get('lane', 'plain') != 'plain' else '')
             if tag not in items:
                 items.append(tag)
             used.add(j['scen'])
